@@ -354,16 +354,23 @@ func generatedRoundTrips(seed uint64, n int) (*kit.Violation, int) {
 
 	var evs []timing.Event
 
-	for i := 0; i < n*3; i++ {
+	for i := 0; i < n*4; i++ {
 		var ev timing.Event
 
 		base := timing.EventBase{ID: r.Uint64(), Time_: timing.VTimeInPicoSec(r.Uint64() >> uint(r.Intn(60))), HandlerID_: "H", Secondary: r.Bool()}
+		if r.Chance(1, 5) {
+			base.Time_ = 0 // pending for the engine's own current time (a wake-up "now")
+		}
 
-		switch i % 3 {
+		switch i % 4 {
 		case 0:
 			ev = modeling.TickEvent{EventBase: base}
 		case 1:
 			ev = modeling.TimerFiredEvent{EventBase: base}
+		case 2:
+			// an event type of the user's own, registered in pointer form (which
+			// timing.RegisterEvent documents as supported)
+			ev = &ptrEvent{EventBase: base, Payload: r.Uint64(), Note: fmt.Sprint("n", i)}
 		default:
 			ev = base
 		}
@@ -583,6 +590,15 @@ func execC08(c C08Case, env *kit.Env) kit.Outcome {
 	return out
 }
 
+// ptrEvent is registered as *ptrEvent.
+type ptrEvent struct {
+	timing.EventBase
+	Payload uint64 `json:"payload"`
+	Note    string `json:"note"`
+}
+
+func init() { timing.RegisterEvent(&ptrEvent{}) }
+
 type evTypeHook struct{ log *[]string }
 
 func (h evTypeHook) Func(ctx hookCtx) {
@@ -595,7 +611,7 @@ func init() {
 	kit.Register(kit.Spec[C08Case]{
 		ID: "C08", Level: "exploration",
 		Rule: "(a) states reached by workloads: a random memory hierarchy (or, in two runs out of five, a translation stack or a switched network) on a real simulation.Simulation is run to a seeded cut, saved and loaded into a rebuilt simulation; every component's State (by reflection, including the buffers, pipelines and directory structures embedded in it) and every message buffered in every port (drained on both sides) must be equal with the same concrete types; " +
-			"(b) generated values: 6 (thorough 30) seeded values of each of the 12 library message types (mem, mem.control, vm, datamover, packetization; nil vs empty slices, zero values, extreme integers, hostile strings) go through a port's incoming and outgoing buffers and a port checkpoint into a fresh port, seeded LRU sets (also between an eviction and the next visit), bounded buffers and pipelines with dwelling items go through their JSON form, and seeded events of the 3 registered event types go through an engine checkpoint into a fresh engine, which must save identically and dispatch the same events; " +
+			"(b) generated values: 6 (thorough 30) seeded values of each of the 12 library message types (mem, mem.control, vm, datamover, packetization; nil vs empty slices, zero values, extreme integers, hostile strings) go through a port's incoming and outgoing buffers and a port checkpoint into a fresh port, seeded LRU sets (also between an eviction and the next visit), bounded buffers and pipelines with dwelling items go through their JSON form, and seeded events of the 3 registered library event types and of a harness type registered in pointer form go through an engine checkpoint into a fresh engine, which must save identically and dispatch the same events; " +
 			"equality = reflect.DeepEqual except that nil and empty slices/maps are equal; distinct = hash of (assembly, cut, buffered messages, seed); non-trivial = at least one buffered message compared",
 		Assumptions: []string{"nil and empty slices/maps are treated as equal (omitempty fields do not keep the distinction and no component depends on it)", "the generated half has no schedule in it; it shares the harness because the checkpoint API of ports and engines is the only public seam", "two runs in five use a translation stack or a switched network instead of the memory hierarchy (same restrictions as in C06)"},
 		Real:        []string{"internal/codec", "messaging msg codec + port checkpoint", "timing event codec + engine checkpoint", "modeling.Component checkpoint", "queueing buffer/pipeline JSON", "cache directory / MSHR state"},
